@@ -36,9 +36,11 @@ type c18Cfg struct {
 	LimitMiB int  `json:"limit_mib"`
 	SpikeMiB int  `json:"spike_limit_mib"`
 	Percent  bool `json:"percentage_mode"`
-	Sharers  int  `json:"processors_sharing_the_limiter"`
-	Ext      bool `json:"extension"`
-	Steps    int  `json:"steps"`
+	// TotalMiB: what the machine reports as total memory (percentage mode); large totals exercise the arithmetic
+	TotalMiB uint64 `json:"total_memory_mib,omitempty"`
+	Sharers  int    `json:"processors_sharing_the_limiter"`
+	Ext      bool   `json:"extension"`
+	Steps    int    `json:"steps"`
 }
 
 type memScript struct {
@@ -98,13 +100,26 @@ func runC18(r *simkit.Run) {
 		cfg.HardGCs = cfg.SoftGCs
 	}
 	cfg.SpikeMiB = cfg.LimitMiB * []int{10, 20, 50}[tp.Draw(3)] / 100
+	cfg.TotalMiB = 2000
+	var pctLimit, pctSpike uint32
+	if cfg.Percent {
+		cfg.TotalMiB = []uint64{2000, 2000, 8192, 65536, 1 << 20, 1 << 24}[tp.Draw(6)]
+		pctLimit = uint32([]int{5, 50, 75, 99}[tp.Draw(4)])
+		pctSpike = uint32([]int{1, 10, 25, 40}[tp.Draw(4)])
+		if pctSpike >= pctLimit {
+			pctSpike = pctLimit - 1
+		}
+		if pctSpike == 0 {
+			pctSpike = 1
+		}
+	}
 	r.Sample = cfg
 	r.Logf("config %+v", cfg)
 	begin := time.Now()
 	script := &memScript{fallback: 0}
 	oldRead, oldGet := memorylimiter.ReadMemStatsFn, memorylimiter.GetMemoryFn
 	memorylimiter.ReadMemStatsFn = script.read
-	memorylimiter.GetMemoryFn = func() (uint64, error) { return 2000 * mib, nil }
+	memorylimiter.GetMemoryFn = func() (uint64, error) { return cfg.TotalMiB * mib, nil }
 	defer func() { memorylimiter.ReadMemStatsFn, memorylimiter.GetMemoryFn = oldRead, oldGet }()
 
 	limit := uint64(cfg.LimitMiB) * mib
@@ -113,12 +128,8 @@ func runC18(r *simkit.Run) {
 		c := &memorylimiter.Config{CheckInterval: time.Duration(cfg.CheckS) * time.Second,
 			MinGCIntervalWhenSoftLimited: time.Duration(cfg.SoftGCs) * time.Second, MinGCIntervalWhenHardLimited: time.Duration(cfg.HardGCs) * time.Second}
 		if cfg.Percent {
-			// total memory 2000 MiB
-			c.MemoryLimitPercentage = uint32(cfg.LimitMiB * 100 / 2000)
-			c.MemorySpikePercentage = uint32(cfg.SpikeMiB * 100 / 2000)
-			if c.MemorySpikePercentage == 0 {
-				c.MemorySpikePercentage = 1
-			}
+			c.MemoryLimitPercentage = pctLimit
+			c.MemorySpikePercentage = pctSpike
 		} else {
 			c.MemoryLimitMiB = uint32(cfg.LimitMiB)
 			c.MemorySpikeLimitMiB = uint32(cfg.SpikeMiB)
@@ -130,8 +141,8 @@ func runC18(r *simkit.Run) {
 	}
 	pcfg := mk()
 	if cfg.Percent {
-		limit = uint64(pcfg.MemoryLimitPercentage) * 2000 * mib / 100
-		spike = uint64(pcfg.MemorySpikePercentage) * 2000 * mib / 100
+		limit = uint64(pcfg.MemoryLimitPercentage) * cfg.TotalMiB * mib / 100
+		spike = uint64(pcfg.MemorySpikePercentage) * cfg.TotalMiB * mib / 100
 	}
 	soft := limit - spike
 
@@ -216,6 +227,11 @@ func runC18(r *simkit.Run) {
 	ids := &gen.IDs{Prefix: "i"}
 	interval := time.Duration(cfg.CheckS) * time.Second
 	classes := []uint64{soft / 2, soft - 1, soft, soft + 1, (soft + limit) / 2, limit - 1, limit, limit + 1, limit * 2}
+	if cfg.Percent {
+		// a percentage of the total is not a whole number of bytes in general and the property does not say how it is
+		// rounded: readings stay 1 MiB clear of the two thresholds (the fixed-limit mode probes the exact boundaries)
+		classes = []uint64{soft / 2, soft - mib, soft + mib, (soft + limit) / 2, limit - mib, limit + mib, limit * 2}
+	}
 
 	applyChecks := func(taken []uint64, when string) {
 		// fold the readings consumed since the last step into the model: a check consumes 1 reading, or 2 when it
